@@ -235,6 +235,16 @@ func appendSnapshotFlavors(b []byte, s *slip.Scope) []byte {
 		}
 		b = append(b, '\n')
 		b = pp.Append(b, s, f.LoadForm())
+		// The methods defined for the flavor itself with defmethod and
+		// defwhopper. Accessors are made by the defflavor options.
+		for _, name := range f.MethodNames() {
+			for _, daemon := range []string{":primary", ":before", ":after", ":whopper"} {
+				if dml := f.DefMethodList(string(name.(slip.Symbol)), daemon, false); dml != nil {
+					b = append(b, '\n')
+					b = pp.Append(b, s, dml)
+				}
+			}
+		}
 	}
 	for _, f := range fa {
 		write(f)
